@@ -399,16 +399,16 @@ def run_xdh(env, case):
 
 
 TESTS = [
-    Test("ecdh", ecdh_case, run_ecdh, quick=4000, thorough=120000,
+    Test("ecdh", ecdh_case, run_ecdh, quick=3000, thorough=120000, max_workers=6,
          must_cover=["hash:null", "hash:default", "hash:sha256", "hash:py", "hash:py_fail", "secret:zero", "secret:n", "secret:overflow", "secret:edge",
                      "both_parties", "pt:tiny_x", "pt:lam", "pt:neg"]),
-    Test("decode", ut_pair, run_decode, quick=8000, thorough=300000,
+    Test("decode", ut_pair, run_decode, quick=6000, thorough=300000, max_workers=8,
          must_cover=["branch:x1", "branch:x2", "branch:x3", "remap:u0", "remap:t0", "remap:dbl", "remap:multiple", "u>=p", "t>=p", "yodd:0", "yodd:1",
                      "how:exceptional", "how:inverse", "how:double_exc"]),
-    Test("roundtrip", roundtrip_case, run_roundtrip, quick=2500, thorough=80000,
+    Test("roundtrip", roundtrip_case, run_roundtrip, quick=2000, thorough=80000, max_workers=4,
          must_cover=["pt_yodd:0", "pt_yodd:1", "enc_branch:x1", "enc_branch:x2", "enc_branch:x3", "create:ok:aux", "create:ok:noaux", "create:refused:aux",
                      "create_yodd:0", "create_yodd:1"]),
-    Test("xdh", xdh_case, run_xdh, quick=3000, thorough=100000,
+    Test("xdh", xdh_case, run_xdh, quick=2400, thorough=100000, max_workers=8,
          must_cover=["hash:bip324", "hash:prefix", "hash:py", "hash:py_fail", "both_parties_agree", "secret:invalid", "secret:edge", "theirs:remap:dbl",
                      "theirs:remap:u0", "theirs:remap:t0", "theirs:branch:x1", "theirs:branch:x2", "theirs:branch:x3", "theirs:u>=p", "theirs:t>=p"]),
 ]
